@@ -8,6 +8,7 @@ import numpy as np
 
 from .. import AnalysisError
 from ..accessors import AccessorEval, Raised, Rec
+from ..model import src_of
 from ..symarr import NotSymbolic
 
 GAUSSIAN_RUN = {"energy": "sp", "energy_force": "force", "opt": "opt", "scan": "scan", "freq": "freq"}
@@ -210,3 +211,105 @@ def check_field_semantics(ctx, rid_round="R3", rid_prec="R4", rid_defaults="R5")
             return None
         run(rid_prec, f"{short}: the field dictionary of a call depends on that call only (a second call in the same process gives the fields of a first call)", f)
     ctx.floor(rid_prec, nprog, 2, "input writers")
+
+
+def check_default_templates(ctx, rid):
+    """The default template of each program, rendered with marker values, has the line / token structure the
+    program's input syntax requires (frozen in spec/templates.json): every field once, charge before multiplicity, the
+    method/basis separator, the geometry on its own lines, the block terminators."""
+    import json
+    import os
+    import string
+
+    from ..consteval import ConstEval, NotConstant
+
+    prog = ctx.prog
+    with open(os.path.join(os.path.dirname(os.path.dirname(os.path.dirname(os.path.abspath(__file__)))), "spec", "templates.json")) as fh:
+        spec = json.load(fh)
+    markers = spec["markers"]
+    ce = ConstEval(prog)
+    n = 0
+    for short, m in prog.input_modules().items():
+        if short not in spec:
+            ctx.violate(rid, f"input writer `{short}` has no frozen template structure in spec/templates.json", relpath=m.relpath, function=m.name, construct=f"{short}: no template spec")
+            continue
+        try:
+            tmpl = ce.global_value(m, "default_template")
+        except (NotConstant, KeyError) as exc:
+            raise AnalysisError(f"{m.name}.default_template is not a constant: {exc}") from exc
+        if not isinstance(tmpl, str):
+            raise AnalysisError(f"{m.name}.default_template is not a string")
+        n += 1
+        fields = [fname for _, fname, _, _ in string.Formatter().parse(tmpl) if fname is not None]
+        where = f"{m.relpath}:{m.bindings['default_template'].stmt.lineno}" if "default_template" in m.bindings else m.relpath
+        if sorted(fields) != sorted(markers):
+            extra = sorted(set(fields) - set(markers))
+            missing = sorted(set(markers) - set(fields))
+            dup = sorted({f for f in fields if fields.count(f) > 1})
+            ctx.violate(rid, f"{short} default template: fields {fields}; " + "; ".join(x for x in (f"missing {missing}" if missing else "", f"unknown {extra}" if extra else "", f"repeated {dup}" if dup else "") if x), relpath=m.relpath, function=f"{m.name}.default_template", construct=f"{short} template fields {sorted(fields)}")
+            continue
+        text = tmpl.format(**markers)
+        lines = [ln.split() for ln in text.split("\n")]
+        if text.endswith("\n"):
+            lines = lines[:-1]
+        # `* xyz` and `*xyz` are the same ORCA token
+        lines = [(["*xyz"] + ln[2:]) if ln[:2] == ["*", "xyz"] else ln for ln in lines]
+        want = spec[short]
+        ok = len(lines) == len(want) and all(len(a) == len(b) and all(x == y or (y.endswith("*") and len(y) > 1 and x.startswith(y[:-1])) for x, y in zip(a, b)) for a, b in zip(lines, want))
+        if ok:
+            ctx.ok(rid, f"{short} default template: {len(want)} lines with the structure the program's input syntax requires", where)
+        else:
+            k = next((i for i, (a, b) in enumerate(zip(lines, want)) if not (len(a) == len(b) and all(x == y or (y.endswith('*') and len(y) > 1 and x.startswith(y[:-1])) for x, y in zip(a, b)))), min(len(lines), len(want)))
+            ctx.violate(rid, f"{short} default template: line {k + 1} renders as {lines[k] if k < len(lines) else '<missing>'}, the {short} input syntax needs {want[k] if k < len(want) else '<nothing more>'} (markers: lot, basis, run type, title, charge -1, multiplicity 3)", relpath=m.relpath, function=f"{m.name}.default_template", construct=f"{short} template line {k + 1}: {lines[k] if k < len(lines) else None}")
+    ctx.floor(rid, n, 2, "default templates")
+
+
+def check_rendering(ctx, rid):
+    """`write_input_base` on a model output file: the template is rendered once with the final field dictionary (the
+    geometry being one atom line per atom, in order, joined by newlines) and the text is written to the given file."""
+    from ..accessors import TextSink
+
+    prog = ctx.prog
+    base = prog.func("iodata.inputs.common.write_input_base")
+    iocls = prog.cls("iodata.iodata.IOData")
+    f = {name: None for name in iocls.fields}
+    f.update(title="T", atnums=np.array([17, 1, 8]), atcoords=np.zeros((3, 3)), _charge=-1.0, _spinpol=2.0, extra={}, atcharges={}, atffparams={}, moments={}, one_rdms={}, two_rdms={})
+    data = Rec(iocls, **{k: v for k, v in f.items() if k in iocls.fields})
+    calls = []
+
+    def atom_line(args, kw):
+        calls.append((args[0], int(args[1])))
+        return f"ATOM{int(args[1])}"
+
+    sink = TextSink()
+    ev = AccessorEval(prog, iocls, limit=4000)
+    ev.module = base.module
+    template = "A {title}|{charge}|{spinmult}|{mine}\n{geometry}\nEND"
+    try:
+        ev.run_free(base, [sink, data, template, ("<function>", atom_line), {"mine": "USER"}], {})
+    except Raised as exc:
+        ctx.violate(rid, f"write_input_base raises {exc.args[0]} on a plain object with a valid template", base, base.node, construct="write_input_base raises")
+        return
+    except NotSymbolic as exc:
+        raise AnalysisError(f"write_input_base is outside the evaluation whitelist: {exc}") from exc
+    want = "A T|-1|3|USER\nATOM0\nATOM1\nATOM2\nEND\n"
+    where = f"{base.module.relpath}:{base.lineno}"
+    if [c[1] for c in calls] != [0, 1, 2] or any(c[0] is not data for c in calls):
+        ctx.violate(rid, f"write_input_base calls the atom-line function for atoms {[c[1] for c in calls]} (expected 0, 1, 2 with the object itself)", base, base.node, construct="atom_line calls")
+    elif sink.text != want:
+        ctx.violate(rid, f"write_input_base writes {sink.text!r} to the file, the rendered template is {want!r}", base, base.node, construct=f"rendered text: {sink.text[:60]!r}")
+    else:
+        ctx.ok(rid, "write_input_base: the template rendered with the final fields (one atom line per atom, in order) is written once to the given file", where)
+    # the API passes the file, the object, template, atom_line and the keyword arguments through unchanged
+    wi = prog.func("iodata.api.write_input")
+    calls_ = [cs for cs in wi.calls if any(g.name == "write_input" and g.module.name.startswith("iodata.inputs.") for g in cs.callees) or (isinstance(cs.node.func, ast.Attribute) and cs.node.func.attr == "write_input")]
+    if len(calls_) != 1:
+        raise AnalysisError(f"api.write_input: expected one call of the input module's write_input, found {len(calls_)}")
+    c = calls_[0].node
+    kws = {k.arg: src_of(k.value) for k in c.keywords}
+    pos = [src_of(a) for a in c.args]
+    okf = len(pos) >= 2 and pos[1] == wi.posparams[0] and kws.get("template", pos[2] if len(pos) > 2 else None) == "template" and kws.get("atom_line", pos[3] if len(pos) > 3 else None) == "atom_line" and kws.get(None) == "kwargs"
+    if okf:
+        ctx.ok(rid, "api.write_input forwards the object, template, atom_line and **kwargs under their own names", f"{wi.module.relpath}:{c.lineno}")
+    else:
+        ctx.violate(rid, f"api.write_input calls the input module as `{src_of(c)[:90]}`: the object, `template`, `atom_line` and `**kwargs` must be forwarded under their own names", wi, c)
